@@ -145,3 +145,50 @@ theorem invoke_on_cancelled {V G : Type} (prog : Prog V G) (s : VMState V G) (c 
   simp [invokeSpec, runCore, hc]
 
 end Hms.Conc
+
+namespace Hms.Conc
+
+/-- The protocol part of a host invocation is a run of the transition system: `spawnCore`
+(`hostSpawn`), the core's signal (`coreFinish`), the host entering `Wait` (`waitStart`) and
+`Wait`'s own steps. (A callee cannot fabricate a termination interrupt: `hterm`.) -/
+theorem invoke_reach {V G : Type} (cfg : Cfg) (prog : Prog V G) (s : VMState V G) (c : Call V)
+    (hterm : ∀ f a g k m, (prog.body f a g).res ≠ .fail .terminate k m)
+    (hr : Reach cfg s.proto) (ha : s.proto.wait.active = false) :
+    Reach cfg (invoke cfg prog s c).1.proto := by
+  unfold invoke
+  split
+  · exact hr
+  · rename_i sg hsig
+    split
+    · exact hr
+    · split
+      · exact hr
+      · rename_i hlf
+        have hlf' : s.proto.lockFree = true := by simpa using hlf
+        have hsigterm : (runCore prog s.proto.cancelled c.fn sg.params (prePush (invert c.args)) s.globals).sig = some .terminate →
+            s.proto.cancelled = true := by
+          intro h
+          unfold runCore at h
+          split at h
+          · assumption
+          · simp only at h
+            cases hres : (prog.body c.fn (popN sg.params (prePush (invert c.args))).1 s.globals).res with
+            | ret v => rw [hres] at h; cases h
+            | fail i k m =>
+              rw [hres] at h
+              simp only [Option.some.injEq] at h
+              subst h
+              exact absurd hres (hterm _ _ _ _ _)
+        have r1 : Reach cfg s.proto.spawn := .step _ _ hr (.hostSpawn _ hlf')
+        have hcore : s.proto.spawn.core s.proto.n = .running .idle := by simp [PState.spawn]
+        have r2 := Reach.step _ _ r1 (Step.coreFinish (cfg := cfg) s.proto.spawn s.proto.n
+          (runCore prog s.proto.cancelled c.fn sg.params (prePush (invert c.args)) s.globals).sig hcore
+          (fun h => hsigterm h))
+        have r3 := Reach.step _ _ r2 (Step.waitStart _ (by simpa [PState.spawn] using ha))
+        have r4 := waitRun_reach (cfg := cfg)
+          (waitFuel (syncStart cfg s.proto (runCore prog s.proto.cancelled c.fn sg.params (prePush (invert c.args)) s.globals).sig))
+          _ r3
+        simp only []
+        split <;> exact r4
+
+end Hms.Conc
